@@ -55,6 +55,9 @@ def parts():
                   any(o and o[0] == 'answered' for o in r['outcomes']), shard=150,
                   describe=lambda r: {k: r.get(k) for k in ('cfg', 'strategy', 'verdict', 'outcome', 'outcomes')}),
         __import__('harness.scen_procstack', fromlist=['part']).part(8, 60, calls_only=True),
+        # real Server / AsyncServer over thread and process servlets: a failing request (incl. falsy, StopIteration, builtin TimeoutError
+        # and un-rebuildable exception objects) fails alone; the other callers get their own results
+        __import__('harness.scen_backlog', fromlist=['part']).part(14, 150),
     ]
 
 
